@@ -10,6 +10,9 @@ CHECKS = {
  "C02": dict(design="3/C02", technique="exhaustive enumeration of operator trees against a frozenset reference model of the term algebra",
    text="Bounded exhaustive model checking on the real code: every operator tree up to 4 leaves (5 in the thorough tier) over five atoms, every (E|G) stratum and every placement of 0/1/-1 at additive positions is run through model_description and compared with an independent set-semantics reference model; all reference expectations are replayed on the implementation.",
    note="Trusts the reference algebra (fmc/refmodel/algebra.py, pinned by selftests) and Python; trees beyond the leaf bound are not covered."),
+ "C03": dict(design="3/C03", technique="exhaustive enumeration of term families, term orders and factor orders on complete-factorial frames; rank/span comparison with a complete-indicator reference matrix",
+   text="Bounded exhaustive model checking on the real design_matrices: all 127 (thorough: all 32767) families of interaction terms over 3 (4) two-level factors with/without intercept in every term order (<= 4 terms) or sorted/reversed/rotated order, further level-count vectors, every ordered family of <= 2 (<= 3) terms with every factor order over f g h x (z), and every C/T/S/scale/poly/bs atom substitution; each common matrix must have full column rank and exactly the span of the reference coding.",
+   note="Trusts numpy SVD with a gap check (ambiguous -> undecided, never a violation), the genericity argument for one seeded numeric draw, and the complete-indicator reference (fmc/frames.py); families beyond the bounds are not covered."),
 }
 NOT_YET = {}
 props = [json.loads(l) for l in open(os.path.join(V, "properties.jsonl"))]
